@@ -31,10 +31,11 @@ type queryRequest struct {
 }
 
 type queryEvent struct {
-	r   resource
-	sub *nats.Subscription
-	ch  chan *nats.Msg
-	cb  func(r QueryRequest)
+	r    resource
+	sub  *nats.Subscription
+	ch   chan *nats.Msg
+	cb   func(r QueryRequest)
+	done chan struct{} // Closed when the query event expires
 }
 
 // Model sends a model response for the query request.
@@ -130,13 +131,39 @@ func (qr *queryRequest) Timeout(d time.Duration) {
 
 // startQueryListener listens for query requests and passes them on to a worker.
 func (qe *queryEvent) startQueryListener() {
-	for m := range qe.ch {
-		m := m
-		simYield("queryListener.recv", qe.r.rname)
-		qe.r.s.runWith(qe.r.Group(), func() {
-			qe.handleQueryRequest(m)
-		})
+	for {
+		select {
+		case m := <-qe.ch:
+			qe.passQueryRequest(m)
+		case <-qe.done:
+			// The query event has expired. Pass on the requests received
+			// before that, and then the last call to the callback, with nil,
+			// so that it is never called with a request afterwards. The
+			// channel is never closed, as the draining subscription may
+			// still deliver to it; just stop listening.
+			for {
+				select {
+				case m := <-qe.ch:
+					qe.passQueryRequest(m)
+					continue
+				default:
+				}
+				break
+			}
+			qe.r.s.runWith(qe.r.Group(), func() {
+				qe.cb(nil)
+			})
+			return
+		}
 	}
+}
+
+// passQueryRequest passes a query request on to a worker.
+func (qe *queryEvent) passQueryRequest(m *nats.Msg) {
+	simYield("queryListener.recv", qe.r.rname)
+	qe.r.s.runWith(qe.r.Group(), func() {
+		qe.handleQueryRequest(m)
+	})
 }
 
 // handleQueryRequest is called by the query listener on incoming query requests.
